@@ -80,6 +80,9 @@ type Sim struct {
 	OnPanic func(task string, v any, stack []byte)
 	// OnSpawn is told about every new task (for traces).
 	OnSpawn func(name string)
+	// StopBudget, when > 0, replaces the default number of statements (stopBudget) a task may
+	// still execute after Stop (harnesses with an endless fabio loop as a task lower it).
+	StopBudget int
 
 	mu       sync.Mutex
 	byG      map[uint64]*Task
@@ -403,7 +406,11 @@ func Yield(site int) {
 			t.afterStop++
 			n := t.afterStop
 			s.mu.Unlock()
-			if held == 0 && n > stopBudget {
+			budget := stopBudget
+			if s.StopBudget > 0 {
+				budget = s.StopBudget
+			}
+			if held == 0 && n > budget {
 				runtime.Goexit()
 			}
 		}
